@@ -133,7 +133,8 @@ func (c *Conn) loop(ctx context.Context) {
 				if err != nil {
 					log.Println(err)
 				}
-				ok := n >= 0
+				// a request nobody handled (closed hub, context) must not look like an empty answer
+				ok := err == nil && n >= 0
 				if n < 0 {
 					n = 0
 				}
